@@ -1,5 +1,6 @@
 import OFCore.Props.C18
 import OFCore.Lemmas.EngineTrace
+import OFCore.Lemmas.HolderStore
 /-!
 # C17 — tracing and storage settings never change results
 
@@ -10,6 +11,13 @@ configuration, and blacklisted variables under `opt_out_cache`).  Where a stored
 in the machine at all: neither is read by any decision of `Simulation._calculate`; that they are
 indeed not read by the CODE is what the correspondence checks (all 2⁵ option subsets against the
 plain run, values of every type through real files).
+
+The value store itself is modelled separately (`HolderStore.lean`): a holder's memory store and
+disk store, the rule that decides where a write goes (`Holder._set`: to disk only when the holder
+is disk-storable, memory holds nothing for the key and memory occupation is above the threshold),
+look-up memory first.  The last block proves that this two-tier store refines ONE finite map
+whatever the pressure at each write — "moving values to disk under any memory configuration"
+changes no read.
 -/
 set_option linter.unusedSectionVars false
 namespace OFCore
@@ -85,5 +93,53 @@ theorem C17_trace_reads (sys : Sys P) (n : Nat) (e : Expr P) (s : St P) (r : Res
 example : runET (faultySys false) 5 St.init (.op2 0 (.ref 0 0) (.ref 1 0)) =
     some (.ok [21], false, ⟨[((1, 0), ([11], false))], [], []⟩, [((0, 0), .ok [10]), ((1, 0), .ok [11])]) := by
   simp [runET, run, runE, faultySys, lookup, store, St.init, Sys.slot]
+
+/-! ## the two-tier value store of a holder -/
+section store
+open OFCore.HolderStore
+variable {Q K V : Type} [DecidableEq K]
+
+/-- Refinement: after ANY history of writes and deletions, with the memory pressure taking ANY
+    value at each write, a holder with or without a disk store shows exactly what a plain finite
+    map shows after the same history. -/
+theorem C17_store_refines_map (key : Q → K) (ops : List (Op Q V)) (h : Holder K V) :
+    (h.run key ops).view = specRun key h.view ops := view_run key ops h
+
+/-- Hence two holders that show the same values — one keeping everything in memory, the other
+    moving values to disk under whatever pressure — show the same values after the same writes and
+    deletions: every read returns the same array (or none). -/
+theorem C17_memory_pressure_irrelevant (key : Q → K) (h₁ h₂ : Holder K V) (hv : h₁.view = h₂.view)
+    (ops₁ ops₂ : List (Op Q V)) (hs : ops₁.map Op.plain = ops₂.map Op.plain) (p : Q) :
+    (h₁.run key ops₁).get key p = (h₂.run key ops₂).get key p := by
+  rw [get_eq_view, get_eq_view, C17_store_refines_map, C17_store_refines_map, hv,
+    ← specRun_plain key ops₁, ← specRun_plain key ops₂, hs]
+
+/-- The latest write wins, wherever the earlier value was and wherever the new one goes. -/
+theorem C17_latest_write_wins (key : Q → K) (h : Holder K V) (p q : Q) (x : V) (pressure : Bool) :
+    (h.set key p x pressure).get key q = if key q = key p then some x else h.get key q := by
+  rw [get_eq_view, view_set]; rfl
+
+/-- Deleting a period removes it from both tiers; deleting everything empties both. -/
+theorem C17_delete_removes (key : Q → K) (h : Holder K V) (p q : Q) :
+    (h.delete key (some p)).get key q = (if key q = key p then none else h.get key q) ∧
+    (h.delete key none).get key q = none := by
+  refine ⟨?_, ?_⟩
+  · rw [get_eq_view, view_delete]; rfl
+  · rw [get_eq_view, view_delete_all]
+
+/-- The known periods are exactly the keys that read a value. -/
+theorem C17_known_periods (h : Holder K V) (k : K) : k ∈ h.known ↔ h.view k ≠ none := known_iff h k
+
+/-- a value written while memory was free, then replaced under pressure: the replacement is read
+    (it replaces the value IN MEMORY); for an eternal variable every period reads it -/
+example : ((({ diskable := true, mem := [], disk := [] } : Holder Nat Nat).set (fun _ : Nat => 0) 3 10 false).set
+    (fun _ : Nat => 0) 7 20 true).get (fun _ : Nat => 0) 5 = some 20 := by decide
+
+/-- why `_set` looks at the memory store first: sending the replacement to disk whenever there is
+    pressure leaves the stale memory value in front of it -/
+example : (let h : Holder Nat Nat := { diskable := true, mem := [(3, 10)], disk := [] }
+    ({ h with disk := tput h.disk 3 20 } : Holder Nat Nat).get id 3) = some 10 := by decide
+
+end store
 
 end OFCore
